@@ -14,7 +14,7 @@ TRUST = ("Trusted: TLC evaluator, Json/IOUtils community modules, BigNum java ov
 MANIFEST = {
     "engine": "tlc+go-harness", "design_ref": "DESIGN.md section 4 (C15)",
     "technique": "TLA+ spec Accum.tla; TLC exhaustive MC (exact and all-roundings models); one TLC-generated behaviour per transition replayed on the real accum package; recorded histories trace-validated by TLC with BigNum",
-    "text": "Accum.tla models the exported accumulator API (grow, create, add/remove/update shares, interval variants, set interval value, add unclaimed, claim, delete, failing calls) with a ghost 'ideal' = sum over time of growth-while-held x shares computed the naive way. TLC checks total = sum of shares, |claimable - ideal| <= nUpd/2 ulp, claim = floor(ideal) within that tolerance, claim resets only the claimer, deleted/claimed-empty positions vanish and failing calls change nothing, exhaustively on a bounded model with exact products (4.1e5 states quick, 3.4e6 thorough) and on one where every rounding to nearest is explored (1.6e5 / 2.3e6); every transition of a bounded exact model (4.2e4 quick, 3.9e5 thorough) is executed on the real osmoutils/accum over a MemDB store with fresh, held and two alternating handles and compared (outcome, payouts, full store state); seeded random histories (2-6 positions, 1-3 denoms, 18-decimal values from dust to 1e32, plain / free interval / concentrated-liquidity usage patterns, ~12% failing calls; every second history shares its store with neighbour accumulators whose name + position name concatenations collide with the accumulator under test - an operation on a neighbour must change nothing) recorded from the real code are validated line by line by TLC with every property as invariant.",
+    "text": "Accum.tla models the exported accumulator API (grow, create, add/remove/update shares, interval variants, set interval value, add unclaimed, claim, delete, failing calls) with a ghost 'ideal' = sum over time of growth-while-held x shares computed the naive way. TLC checks total = sum of shares, |claimable - ideal| <= nUpd/2 ulp, claim = floor(ideal) within that tolerance, claim resets only the claimer, deleted/claimed-empty positions vanish and failing calls change nothing, exhaustively on a bounded model with exact products (4.1e5 states quick, 3.4e6 thorough) and on one where every rounding to nearest is explored (1.6e5 / 2.3e6); every transition of a bounded exact model (4.2e4 quick, 3.9e5 thorough) is executed on the real osmoutils/accum over a MemDB store with fresh, held and two alternating handles and compared (outcome, payouts, full store state); seeded random histories (2-6 positions, 1-3 denoms, 18-decimal values from dust to 1e32, plain / free interval / concentrated-liquidity usage patterns, ~12% failing calls; position names that are prefixes of one another in half of the histories; every second history shares its store with neighbour accumulators whose name + position name concatenations collide with the accumulator under test - an operation on a neighbour must change nothing) recorded from the real code are validated line by line by TLC with every property as invariant.",
     "note": TRUST + " Preconditions of the property are respected by the drivers: a name is created only while it does not exist (NewPosition overwrites silently), 0 <= interval value <= accumulator value (DecCoins.Sub panics otherwise), non-negative growth/rewards. Handles are not used stale except where the code re-reads the total from the store.",
 }
 BUILD = [("./lite/accum/", "accum")]
